@@ -44,6 +44,7 @@ class LocationTableEntry:
         self.version: int = mib.itsGnProtocolVersion
         self.position_vector_lock = Lock()
         self.position_vector: LongPositionVector = LongPositionVector()
+        self._pv_received: bool = False
         self.ls_pending: bool = False
         self.is_neighbour: bool = False
         self.tst_lock = Lock()
@@ -79,7 +80,7 @@ class LocationTableEntry:
             Position vector to update.
         """
         with self.position_vector_lock:
-            if self.position_vector.tst.msec == 0:
+            if not self._pv_received and self.position_vector.tst.msec == 0:
                 # §C.2: initial entry – accept first PV unconditionally.
                 # TST.__gt__ comparison against TST(0) is unreliable for current
                 # real-world timestamps (mod 2^32 > 2^31) due to wrap-around logic.
@@ -89,6 +90,7 @@ class LocationTableEntry:
                 self.position_vector = position_vector
             # §C.2 ELSE: received PV is not newer → do nothing;
             # packet processing continues normally (no exception)
+            self._pv_received = True
 
     def update_pdr(self, position_vector: LongPositionVector, packet_size: int) -> None:
         """
